@@ -9,7 +9,8 @@ from obl import mval
 from driver import Driver
 from x86sym import EBPF_MAP, REGS
 
-QUICK_PAIRS = [(0, 1), (3, 4), (4, 3), (7, 6), (6, 7), (2, 2), (9, 5), (1, 10)]
+# every eBPF register occurs as destination/base and as source at least once (x86: rax rdi rsi rdx r9 r8 rbx r13 r14 r15 rbp - REX.B/REX.R classes, rbp/r13 bases)
+QUICK_PAIRS = [(0, 1), (3, 4), (4, 3), (7, 6), (6, 7), (2, 2), (9, 5), (1, 10), (8, 9), (5, 8)]
 ALL_PAIRS = [(d, s) for d in range(10) for s in range(11)]
 # registers with an implicit role in x86 (r0 = rax, r3 = rdx: operands of mul/div): every aliasing pattern dst/src over {r0, r3, other}
 SPECIAL_PAIRS = [(0, 0), (0, 3), (3, 0), (3, 3), (5, 0), (5, 3)]
